@@ -56,12 +56,16 @@ def run_streams(out, mod, binary, tier, seed, only_request=None, scale=1.0, dead
             # verdict of the statement-grammar model (lean/Hcl/Model/ParserStmts.lean) on the text of the request: the driver
             # parses the text itself and compares with the AST the real parser produced (or with its rejection)
             stmts_verdict = None
+            spans_verdict = None
             if "stmts-model-" in spec:
                 body, _, verdict = spec.partition("\x00")
                 toks = verdict.split()
                 sv = [t for t in toks if t.startswith("stmts-model-")]
                 stmts_verdict = sv[0] if sv else None
-                rest = [t for t in toks if not t.startswith("stmts-model-")]
+                # ... and of its spanned version (Hcl/Model/ParserStmtsSp.lean) on the statement-level spans of the real AST
+                sp = [t for t in toks if t.startswith("stmts-spans-")]
+                spans_verdict = sp[0] if sp else None
+                rest = [t for t in toks if not t.startswith(("stmts-model-", "stmts-spans-"))]
                 spec = body + ("\x00" + " ".join(rest) if rest else "")
             if impl == "HANG":
                 # the watchdog of the harness (harness/src/watch.rs): the real code did not come back from this input
@@ -75,6 +79,11 @@ def run_streams(out, mod, binary, tier, seed, only_request=None, scale=1.0, dead
                 if stmts_verdict not in ("stmts-model-agree", "stmts-model-rejects"):
                     j["corr"] = False
                     model = model + " [" + stmts_verdict + ": the statement-grammar model and the real parser disagree on this text]"
+            if spans_verdict is not None:
+                out.count(st["name"] + ":" + spans_verdict)
+                if spans_verdict != "stmts-spans-agree":
+                    j["corr"] = False
+                    model = model + " [" + spans_verdict + ": the spans the statement-grammar model computes differ from those of the real AST]"
             out.case(st["name"], req, j.get("key"), sample=(i % max(1, len(cases) // 3) == 0))
             for c in j.get("cats", ()):
                 out.count(st["name"] + ":" + c)
